@@ -40,9 +40,14 @@ def make_units(profile, seed, tier, index, opts):
     g = ggen.generate("%s" % seed, profile, index + 1)[-1] if False else None
     rnd = random.Random("%s/%s/%d" % (seed, profile, index))
     fixed_inputs = None
+    step_cap = None
+    suite_text = None
     if profile == "memofam":
         import families
         g, fixed_inputs, _ = families.fam(index)
+        check_wellformed(g)
+    elif profile == "suite":
+        g, suite_text, fixed_inputs, step_cap = suite_unit(index, seed, tier)
         check_wellformed(g)
     else:
         g = ggen.Gen(rnd, ggen.profile(profile)).grammar()
@@ -63,15 +68,75 @@ def make_units(profile, seed, tier, index, opts):
         if fixed_inputs is not None:
             cases_by_rule[r.name] = list(fixed_inputs.get(r.name, []))
             continue
+        if profile == "suite":
+            cases_by_rule[r.name] = inputs_mod.inputs_for(g, r.name, irnd, n_sent=t["n_sent"], n_total=t["n_inputs"], ws_inject=True,
+                                                          unicode_heavy=True, long_inputs=True, maxbytes=64)
+            continue
         cases_by_rule[r.name] = inputs_mod.inputs_for(
             g, r.name, irnd, n_sent=t["n_sent"], n_total=t["n_inputs"],
             ws_inject=opts.get("ws_inject", False), unicode_heavy=opts.get("unicode_heavy", False),
             long_inputs=opts.get("long_inputs", False))
     for vi, (vname, vg) in enumerate(variants):
         text = grender.render(vg, lay if opts.get("random_layout", True) and lay.random() < 0.5 else None, level=2)
+        if suite_text is not None:
+            text = suite_text  # the repository's own file, byte for byte
         units.append({"base": index, "variant": vname, "grammar": vg, "text": text,
-                      "inputs": cases_by_rule, "profile": profile})
+                      "inputs": cases_by_rule, "profile": profile, "step_cap": step_cap})
     return units
+
+
+_suite_cache = {}
+
+
+def suite_files():
+    import glob
+    return [f for f in sorted(glob.glob(os.path.join(build.REPO, "test", "src", "*", "grammar.*ebnf"))) +
+            [os.path.join(build.REPO, "grammar.ebnf")]]
+
+
+def suite_unit(index, seed, tier):
+    """the repository's own grammars (those without crate-specific user functions), read by the real front end"""
+    import gfromast
+    import tempfile
+    files = suite_files()
+    f = files[index % len(files)]
+    with open(f, encoding="utf-8") as fh:
+        text = fh.read()
+    wd = tempfile.mkdtemp(prefix="suite_", dir=build.WORK)
+    try:
+        r = build.run_cgdrv("ast", [("s", f, os.path.join(wd, "s.ast"))], wd, nproc=1)
+        if r["s"][0] != "ok":
+            raise Invalid("suite grammar not read by the front end")
+        with open(os.path.join(wd, "s.ast"), encoding="utf-8") as fh:
+            g = gfromast.grammar(rdebug.parse(fh.read()))
+    finally:
+        shutil.rmtree(wd, ignore_errors=True)
+    if gfromast.uses_user_functions(g):
+        raise Invalid("suite grammar needs the test crate's user functions")
+    if os.path.basename(f) != "grammar.ebnf" or "test" in f:
+        return g, text, None, 60000
+    # peginator's own grammar: inputs are grammar texts (generated small grammars, their prefixes and mutants)
+    import c15
+    rnd = random.Random("suite/%s" % seed)
+    ins = []
+    prof = ggen.profile("core")
+    prof["nrules"] = (1, 3)
+    prof["depth"] = 2
+    n = 30 if tier == "quick" else 150
+    for k in range(n):
+        gg = ggen.Gen(random.Random("suite/%s/%d" % (seed, k)), prof).grammar()
+        t = grender.render(gg, random.Random("suitel/%s/%d" % (seed, k)) if k % 2 else None)
+        t = inputs_mod.trunc(t, 260)
+        ins.append(t)
+        if k % 3 == 0:
+            ins += [inputs_mod.trunc(m, 260) for m in c15.mutants(t, rnd, 3)]
+        if k % 5 == 0:
+            ins.append(t[:rnd.randint(1, max(1, len(t) - 1))])
+    ins += ["", ";", "A = 'a';", "@export A = b:B {',' b:B} $;\nB = 'x'..'z';", "# comment only\n", "A = 'a' # c\n;", "@char C = 'a' | 'b'..'c' | D; @char D = '\\u{1F600}';",
+            "@extern(a::b -> c::D) E;", "@check(x) @check(y) @string @no_skip_ws @position @memoize W = {!'\\n' char}+;"]
+    seen = set()
+    ins = [x for x in ins if not (x in seen or seen.add(x))]
+    return g, text, {"Grammar": ins}, 120000
 
 
 def memo_variants(g, rnd):
@@ -162,7 +227,7 @@ def phaseA_worker(args):
             # budgets from the reference evaluation
             try:
                 types = check_types(u["grammar"])
-                m = Model(u["grammar"], types)
+                m = Model(u["grammar"], types, step_cap=u.get("step_cap") or 20000)
             except Exception as e:
                 out.append({"base": index, "error": "types: " + repr(e)})
                 continue
@@ -230,7 +295,7 @@ def phaseC_worker(args):
             continue
         with open(logp) as f:
             obs = json.load(f)
-        ui = core.UnitInfo(u["grammar"])
+        ui = core.UnitInfo(u["grammar"], step_cap=u.get("step_cap") or 20000)
         counters = {}
         findings = []
         results = {}
@@ -331,6 +396,8 @@ def run_profile(profile, seed, tier, opts=None, flavor="dev-hooks", modes=7, sca
     if profile == "memofam":
         import families
         ngr = families.NFAM
+    if profile == "suite":
+        ngr = len(suite_files())
     build.debug_table()
     build.tool_cgdrv()
     # ---- phase A
